@@ -86,6 +86,111 @@ def gen_patch_for(rng, target, depth, keys):
     return out
 
 
+# ------------------------------------------------------------------------------------------------
+# merged documents the binary form cannot hold (round 5): see C15.representable (names of 256+ bytes, case-only twins)
+def wrap_at(prefix_segs, inner):
+    cur = inner
+    for seg in reversed(prefix_segs):
+        cur = {seg: cur}
+    return cur
+
+
+def gen_unrep_merge(rng):
+    """(target, patch, what): MergePatch(target, patch) contains - or narrowly does not contain - member names the binary form
+    refuses: a case-only twin of a target member that stays (twin first / in the middle / last among the new members, in the
+    root or in nested objects that are / are not the last member of their parent), a twin whose older sibling is removed by a
+    null in the same patch (storable), twins inside a value taken over wholesale (target member absent / a scalar / an array),
+    twins one of which is null inside such a value (never arrives in the result), names of 254-1000 bytes, near-miss names,
+    and targets that are themselves not storable"""
+    k = rng.choice(J.TWIN_NAMES)
+    fill = [1, "s", True, [1, 2], {"in": 1}, 0.5, [], {}]
+    S = {}
+    nf = rng.weighted([(0, 2), (1, 3), (2, 3), (3, 1)])
+    at = rng.below(nf + 1)
+    for i in range(nf + 1):
+        if i == at:
+            S[k] = rng.choice(fill)
+        if i < nf:
+            S["m%d" % i] = rng.choice(fill)
+    lay = rng.below(6)
+    if lay == 0:
+        doc, pre = S, []
+    elif lay == 1:
+        doc, pre = {"a": 1, "s": S, "c": [1, 2, 3], "d": "tail"}, ["s"]
+    elif lay == 2:
+        doc, pre = {"a": 1, "s": S}, ["s"]
+    elif lay == 3:
+        doc, pre = {"s": S, "z": 0}, ["s"]
+    elif lay == 4:
+        doc, pre = {"w": {"p": {"q": S, "r": 5}, "t": 2}, "e": [7]}, ["w", "p", "q"]
+    else:
+        doc, pre = {"o": {"deep": S}, "after": {"x": 1}}, ["o", "deep"]
+    what = rng.weighted([("twin", 8), ("swap", 3), ("near", 2), ("long", 5), ("value", 4), ("nullin", 2), ("doc", 1), ("nulltwin", 1)])
+    K = J.case_twin(rng, k)
+    if K is None and what in ("twin", "swap", "nulltwin"):
+        what = "long"
+    news = [("n%d" % i, rng.choice([1, "v", [0], {"y": 1}])) for i in range(rng.weighted([(0, 3), (1, 3), (2, 2), (3, 1)]))]
+    mods = []
+    for m in S:
+        if m != k and rng.chance(1, 3):
+            mods.append((m, rng.choice([None, 7, {"in": None, "more": 1}, [3]])))
+
+    def build(special):
+        """patch object for the site: `special` (name, value) pairs placed first / in the middle / last among the other members"""
+        others = mods + news
+        for i in range(len(others) - 1, 0, -1):
+            j = rng.below(i + 1)
+            others[i], others[j] = others[j], others[i]
+        posn = rng.choice(["first", "middle", "last"])
+        cut = 0 if posn == "first" else len(others) if posn == "last" else rng.below(len(others) + 1)
+        seq = others[:cut] + special + others[cut:]
+        out = {}
+        for n, v in seq:
+            out[n] = v
+        return out
+    val = rng.choice([2, "t", [1, {"u": 1}], {"v": 1}, {"in": {"x": None, "y": 2}}])
+    if what == "twin":
+        site = build([(K, val)])
+    elif what == "swap":           # the older name leaves through a null in the same patch: the result holds only the new one
+        sp = [(K, val), (k, None)]
+        if rng.chance(1, 2):
+            sp.reverse()
+        site = build(sp)
+    elif what == "nulltwin":       # null for a name that is only a twin of an existing one: removes nothing
+        site = build([(K, None)])
+    elif what == "near":
+        site = build([(J.near_twin(rng, k), val)])
+    elif what == "long":
+        n = rng.choice(J.LONG_LENS)
+        name = J.long_name(rng, n)
+        sp = [(name, val)]
+        if rng.chance(1, 4):
+            sp.append((name[:-1] + "#", 0))
+        if rng.chance(1, 6):
+            sp = [(name, None)]    # deleting a name that cannot exist
+        site = build(sp)
+    elif what in ("value", "nullin"):
+        K2 = K or J.long_name(rng, 256)
+        second = None if what == "nullin" else 2
+        inner = rng.choice([{k: 1, K2: second}, {k: 1, "mid": [1], K2: second, "z": 3}, {"o": {k: 1, K2: second, "p": {}}, "after": 0},
+                            {K2: second, "m": 0, k: 2}])
+        if what == "value" and rng.chance(1, 3):
+            inner = rng.choice([[{k: 1, K2: 2}, 5], [[{K2: 1, "m": 0, k: 2}], {"t": 1}]])      # arrays are taken over as they are
+        where = rng.choice(["new", rng.choice([m for m in S if isinstance(S[m], (int, str, list, bool, float))] or ["new"])])
+        site = build([(where, inner)])
+    else:                          # the target itself is not storable
+        K2 = K or J.long_name(rng, 300)
+        S[K2] = rng.choice([9, {"q": 1}])
+        if rng.chance(1, 2):
+            S["zlast"] = 0
+        site = build([("extra", 1)])
+    patch = wrap_at(pre, site)
+    if pre and rng.chance(1, 3):   # something else at the top of the patch, before or after the path to the site
+        extra = rng.choice([("top", 1), ("d", None), ("a", {"b": 1})])
+        patch = dict([extra] + list(patch.items())) if rng.chance(1, 2) else dict(list(patch.items()) + [extra])
+    return doc, patch, what
+
+
 MERGE_MODES = ["tp", "th", "tj", "ta", "bj", "bb"]
 
 
@@ -138,6 +243,8 @@ def check(run):
                 cases.append({"kind": "badtext", "doc": r["doc"], "patch_text": r["patch_text"]})
             else:
                 cases.append({"kind": "merge", "doc": r["doc"], "patch": r["patch"]})
+    if os.environ.get("VERIF_NO_CORPUS"):       # debugging aid: judge the generators alone
+        cases = []
     for _ in range(N):
         keys = [rng.choice(KEYS) for _ in range(rng.range(2, 5))]
         if rng.chance(1, 3):
@@ -168,6 +275,10 @@ def check(run):
             if rng.chance(1, 12):
                 path = rng.choice(["", "/"])
             cases.append({"kind": "mpath", "doc": doc, "path": path, "val": val})
+    # merged documents the binary form cannot hold, and their storable near misses
+    for _ in range(N // 2):
+        doc, patch, what = gen_unrep_merge(rng)
+        cases.append({"kind": "merge", "doc": doc, "patch": patch, "origin": "wb-" + what})
     lines, heap, meta = [], [], []
     for ci, c in enumerate(cases):
         dt = J.gen_json(c["doc"])
@@ -242,6 +353,7 @@ def check(run):
         if ci not in seen_case:
             seen_case.add(ci)
             run.dist("kind:" + c["kind"])
+            run.dist("origin:" + c.get("origin", "gen"))
             run.case(c["doc_text"] + "|" + str(c.get("patch_text", c.get("path"))) + "|" + str(c.get("val_text")), nontrivial=True,
                      sample=({"doc": c["doc_text"], "patch": c.get("patch_text"), "path": c.get("path"), "impl": o}
                              if ci % max(1, len(cases) // 5) == 0 else None))
@@ -266,6 +378,27 @@ def check(run):
             viol("memory error / crash in the merge (%s): %s" % (o[:200], describe(i)))
             continue
         f = J.fields(o)
+        binary = m[0] == "b"
+        orig = J.from_py(c["doc"])
+        if binary and c["kind"] == "merge":
+            # jbl_from_json of the target (and, for jbl_merge_patch_jbl, of the patch) comes first: what the binary form cannot hold
+            # must be refused there, everything else accepted
+            pv = J.from_py(c["patch"])
+            if not J.representable(orig):
+                if f.get("docparse") != "creation":
+                    viol("jbl_from_json accepted a target the binary form cannot hold (a member is lost or mangled): %s -> %s" % (describe(i), o[:200]))
+                else:
+                    run.dist("result:document-not-storable")
+                continue
+            if m == "bb" and not J.representable(pv):
+                if f.get("patchparse") != "creation":
+                    viol("jbl_from_json accepted a patch document the binary form cannot hold: %s -> %s" % (describe(i), o[:200]))
+                else:
+                    run.dist("result:patch-not-storable")
+                continue
+            if "docparse" in f or "patchparse" in f:
+                viol("jbl_from_json refuses a document the binary form can hold: %s -> %s" % (describe(i), o[:200]))
+                continue
         if "rc" not in f or "doc" not in f:
             if "patchparse" in f or "docparse" in f:
                 continue
@@ -282,8 +415,10 @@ def check(run):
         if f.get("links") == "bad":
             viol("sibling links inconsistent after the merge: %s" % describe(i))
             continue
-        binary = m[0] == "b"
-        orig = J.from_py(c["doc"])
+        if binary and f["rc"] != "ok" and (f.get("unchanged") != "1" or not J.eq_unordered(got, orig, True)):
+            # whatever the reason of a failure, the binary document is byte for byte the one before the call
+            viol("failed merge (rc=%s) changed the binary document: %s -> %s" % (f["rc"], describe(i), o[:200]))
+            continue
         if c["kind"] == "badtext":
             if f["rc"] == "ok":
                 viol("the patch text does not parse, yet the call reports success: %s" % describe(i))
@@ -307,18 +442,24 @@ def check(run):
         api_restricted = m in ("tp", "th", "ta") and (not isinstance(orig, dict) or not isinstance(patch, dict))
         if m == "ta" and isinstance(patch, list):
             continue          # an array is a JSON Patch document for jbn_patch_auto
+        exp = merge_patch(J.clone(orig), J.clone(patch)) if patch is not MISSING else None
+        # MergePatch(target, patch) exists but the binary form cannot hold it (a name of 256+ bytes / two names equal up to ASCII
+        # case): the call either succeeds with exactly that document - it cannot - or reports JBL_ERROR_CREATION and leaves the
+        # document as it was (checked above, byte for byte)
+        unrep = binary and patch is not MISSING and not J.representable(exp)
         if f["rc"] != "ok":
             if api_restricted:
                 run.dist("result:api-rejects-non-object")
                 if not J.eq_unordered(got, orig, binary):
                     viol("rejected merge changed the document: %s -> %s" % (describe(i), o[:200]))
+            elif unrep and f["rc"] == "creation":
+                run.dist("result:unrepresentable")
             else:
                 viol("RFC 7386 defines the result, the library reports %s: %s" % (f["rc"], describe(i)))
             continue
         if patch is MISSING:
             viol("no patch at all, yet success: %s" % describe(i))
             continue
-        exp = merge_patch(J.clone(orig), J.clone(patch))
         run.dist("result:ok")
         if not J.eq_unordered(got, exp, binary):
             viol("result differs from MergePatch(target, patch): %s -> %s, expected %s" % (describe(i), f["doc"], J.to_json(exp)))
@@ -326,13 +467,21 @@ def check(run):
                       rule="(target, patch) pairs: targets of depth <= 3 over 2-7 member names drawn per case (names that are prefixes "
                            "of one another, empty name, escaped characters), patches generated against the target (2/3 shared names, "
                            "null / nested null / empty object / object<->array<->scalar at every depth), truncated patch texts, "
-                           "path form with and without a value; every pair through jbn_merge_patch with a pool and with pool=0 on a "
+                           "path form with and without a value; plus (origin:wb-*) pairs whose MergePatch result holds member names "
+                           "the binary form cannot store (case-only twins first/middle/last among the new members, in nested objects "
+                           "that are / are not the last member, inside values taken over wholesale, names of 256-1000 bytes) and the "
+                           "storable near misses (older twin removed by a null, twin that is null inside a new value, 255 bytes, "
+                           "non-ASCII case); every pair through jbn_merge_patch with a pool and with pool=0 on a "
                            "malloc-ed tree (ASan+LSan build), jbn_merge_patch_from_json, jbn_patch_auto, jbl_merge_patch, "
                            "jbl_merge_patch_jbl, jbn_merge_patch_path; a case is one pair; distinct = distinct texts",
                       assumptions=["jbn_merge_patch / jbn_patch_auto / jbn_merge_patch_path take object roots and object patches only "
                                    "(IW_ERROR_INVALID_ARGS otherwise - counted, result must be unchanged)",
                                    "JSON texts use only syntax on which text parsing is not in question (C13's subject)",
-                                   "member names within one object are distinct"])
+                                   "member names within one object are distinct",
+                                   "binary-form modes, MergePatch result not storable in the binary form (result:unrepresentable): the "
+                                   "call must report JBL_ERROR_CREATION and leave the binary document byte for byte as it was (success is "
+                                   "accepted only with exactly the RFC result); a target / patch document that is itself not storable must "
+                                   "be refused by jbl_from_json"])
 
 
 def replay(run, path):
